@@ -174,6 +174,8 @@ pub fn stmts(tier: Tier) -> Vec<String> {
         // short-circuit with side effects
         "x = .a || 7", "x = (.a == 1 && { y = \"s\"; true })", "x = (.a == 1 || { y = 2; false })", "x = (.c == true && { .b = 9; true })",
         "x = null || { y = 1; \"r\" }", "x = true || { y = 1; \"r\" }", "x = false && { y = 1; true }",
+        // a skippable right operand that RE-TYPES an existing variable, and consumers that are infallible for one type only
+        "z = (.c == true && { x = \"s\"; true })", "z = (.c == true || { x = \"s\"; true })", "z = (to_int(.a) ?? { x = \"s\"; 0 })", "y = upcase(x)", "y = x + 1", "y = downcase(y)",
         // error handling
         "x = to_int(.a) ?? \"d\"", "x, err = to_int(.a)", ".b, err = to_int(.a)", "x = to_int(.a) ?? to_int(.b) ?? 0", "x = (10 / .a) ?? 0",
         "x, err = 10 / .a", "x.q, err = to_int(.a)", "x = string(.a) ?? 7", "x = array(.a) ?? 7", "x = object(.a) ?? 7", "x = int(.a) ?? null",
@@ -188,6 +190,9 @@ pub fn stmts(tier: Tier) -> Vec<String> {
         "x = if .c == true { 1 }", "if .c == true { x = null } else if .a == 1 { x = 2.5 }", "if .c == true { x.b = \"n\" }",
         "if .c == true { . = {\"z\": 1} }", "if .c == true { del(.a[0]) }", "if .c == true { .a[-1] = null }", "if is_string(.a) { x = .a } else { x = 0 }",
         "if .c == true { y = x } else { y = .a }",
+        // predicates that are blocks with assignments of their own, overwritten (or not) by the branch
+        "if (x = \"s\"; .c == true) { x = 1 }", "if (.b = \"p\"; .c == true) { .b = 1 }", "y = if (x = 1; .c == true) { x = \"t\"; 2 }", "if (x = [1]; .c == true) { x = {} } else { y = x }",
+        "if (x = null; .c != true) { x = 2.5 } else if (y = 0; .a == 1) { y = \"e\" }",
         // blocks
         "{ x = 2; y = \"t\" }", "y = { x = \"blk\"; 3 }", "{ x = .a; .b = x }", "x = { .a = 3; .a }",
         // deletes
@@ -240,7 +245,7 @@ pub fn core_stmts() -> Vec<String> {
         "x = (.a == 1 && { y = \"s\"; true })", "x, err = to_int(.a)", "if .c == true { x = 1 } else { x = \"s\" }", "if .c == true { .a = 1 }",
         "if .c == true { del(.a[0]) }", "if .c == true { x.b = \"n\" }", "y = { x = \"blk\"; 3 }", "del(.a)", "del(.a[0])", "del(.a[-1])", "del(x.b)", "del(x[0])",
         "x = del(.a[0])", "for_each([1]) -> |_i, _v| { x = 0 }", "for_each(x) -> |_i, v| { y = v }", "x = map_values(x) -> |v| { y = v; 1 }", "y = 10 / x",
-        "y = 10 / x.b", "y = x || .s", "y = { x = 0; 10 } / x", "x, err = .a * 2", "x = {}", "if .c == true { x = {\"a\": \"s\"} }", "y = upcase(x.a)", "if .c == true { return x }", "x = push(x, .a)", "x = merge(x, {\"z\": 1})", ". = {\"a\": [1, \"s\", true]}",
+        "y = 10 / x.b", "y = x || .s", "y = { x = 0; 10 } / x", "x, err = .a * 2", "x = {}", "if .c == true { x = {\"a\": \"s\"} }", "y = upcase(x.a)", "if (x = \"s\"; .c == true) { x = 1 }", "z = (.c == true && { x = \"s\"; true })", "y = upcase(x)", "if .c == true { return x }", "x = push(x, .a)", "x = merge(x, {\"z\": 1})", ". = {\"a\": [1, \"s\", true]}",
     ]
     .iter()
     .map(|s| (*s).to_string())
